@@ -233,6 +233,7 @@ package connect
 
 //@ func (*grpcHandler).SetTimeout(g, request) (ctx, cancel, err)
 //@   tags C10, C07, C15
+//@   implements protocolHandler.SetTimeout
 //@   requires request != nil
 //@   ensures let h := hget(request.Header, "Grpc-Timeout") in gramT(h) && durT(h) <= 9223372036854775807 ==> err == nil && ctx == ctxWithTimeout(reqctx(request), durT(h))   // label: grammatical-honoured-exactly
 //@   ensures let h := hget(request.Header, "Grpc-Timeout") in h == "" || (gramT(h) && durT(h) > 9223372036854775807) ==> err == nil && ctx == reqctx(request) && cancel == nil   // label: absent-or-unrepresentable-is-unbounded
@@ -240,6 +241,7 @@ package connect
 
 //@ func (*connectHandler).SetTimeout(h, request) (ctx, cancel, err)
 //@   tags C10, C07, C15
+//@   implements protocolHandler.SetTimeout
 //@   requires request != nil
 //@   ensures let v := hget(request.Header, "Connect-Timeout-Ms") in v == "" ==> err == nil && ctx == reqctx(request) && cancel == nil    // label: absent-is-unbounded
 //@   ensures let v := hget(request.Header, "Connect-Timeout-Ms") in isNum10(v) && |v| <= 10 ==> err == nil && ctx == ctxWithTimeout(reqctx(request), val10(v) * 1000000)   // label: grammatical-honoured-exactly
@@ -1317,6 +1319,7 @@ package connect
 
 //@ func (*connectHandler).NewConn(h, responseWriter, request) (conn, ok)
 //@   tags C05, C07, C08, C09
+//@   implements protocolHandler.NewConn
 //@   requires h != nil && responseWriter != nil && request != nil && h.protocolHandlerParams.CompressionPools != nil && h.protocolHandlerParams.Codecs != nil
 //@   assert@call(negotiateCompression#1): arg0 == h.protocolHandlerParams.CompressionPools && (h.protocolHandlerParams.Spec.StreamType == 0 ==> arg1 == hget(request.Header, "Content-Encoding") && arg2 == hget(request.Header, "Accept-Encoding")) && (h.protocolHandlerParams.Spec.StreamType != 0 ==> arg1 == hget(request.Header, "Connect-Content-Encoding") && arg2 == hget(request.Header, "Connect-Accept-Encoding"))   // label: negotiation-reads-the-request-encoding-and-the-accept-list-from-their-headers   // tags: C08, C07
 //@   assigns everything
@@ -1329,6 +1332,7 @@ package connect
 
 //@ func (*grpcHandler).NewConn(g, responseWriter, request) (conn, ok)
 //@   tags C05, C07, C08, C09
+//@   implements protocolHandler.NewConn
 //@   requires g != nil && responseWriter != nil && request != nil && g.protocolHandlerParams.CompressionPools != nil && g.protocolHandlerParams.Codecs != nil
 //@   assert@call(negotiateCompression#1): arg0 == g.protocolHandlerParams.CompressionPools && arg1 == hget(request.Header, "Grpc-Encoding") && arg2 == hget(request.Header, "Grpc-Accept-Encoding")   // label: negotiation-reads-the-request-encoding-and-the-accept-list-from-their-headers   // tags: C08, C07
 //@   assigns everything
@@ -1667,6 +1671,7 @@ package connect
 //@ spec lmem(l strlist, x seq) bool = exists i int :: {l[i]} 0 <= i && i < len(l) && l[i] == x
 //@ func (*protocolConnect).NewHandler(p, params) res
 //@   tags C12
+//@   defines ctmap(res) == cast(res, "*connectHandler").accept
 //@   requires params != nil && params.Codecs != nil
 //@   assigns nothing
 //@   ensures res != nil && typeis(res, "*connectHandler") && fresh(res)
@@ -1681,6 +1686,7 @@ package connect
 //@ macro grpcPrefix(web bool) seq = if web then "application/grpc-web+" else "application/grpc+"
 //@ func (*protocolGRPC).NewHandler(g, params) res
 //@   tags C12
+//@   defines ctmap(res) == cast(res, "*grpcHandler").accept
 //@   requires g != nil && params != nil && params.Codecs != nil
 //@   assigns nothing
 //@   ensures res != nil && typeis(res, "*grpcHandler") && fresh(res) && cast(res, "*grpcHandler").web == g.web
@@ -1956,3 +1962,22 @@ package connect
 //@   requires o != nil && config != nil
 //@   assigns config.CompressMinBytes
 //@   ensures config.CompressMinBytes == o.Min
+
+
+// The protocolHandler interface contracts are proved for both implementations
+// (clause `implements` above); ContentTypes returns the set built by NewHandler.
+//@ typeinv *connectHandler h by (*protocolConnect).NewHandler: ctmap(h) == h.accept
+//@ typeinv *grpcHandler g by (*protocolGRPC).NewHandler: ctmap(g) == g.accept
+//@ constfield connectHandler.accept, grpcHandler.accept
+//@ func (*connectHandler).ContentTypes(h) res
+//@   tags C12
+//@   requires h != nil
+//@   implements protocolHandler.ContentTypes
+//@   assigns nothing
+//@   ensures res == h.accept
+//@ func (*grpcHandler).ContentTypes(g) res
+//@   tags C12
+//@   requires g != nil
+//@   implements protocolHandler.ContentTypes
+//@   assigns nothing
+//@   ensures res == g.accept
